@@ -1903,3 +1903,84 @@ def accidental_ranges(pattern):
                 walk(av)
     walk(tree)
     return out
+
+
+# ---------------------------------------------------------------------------
+# G24: a caller-supplied callable wrapped in a memo
+def memoised_callables(fnode):
+    """Yield (closure, store, callee) for a nested function of `fnode` that stores the result of
+    calling one of fnode's PARAMETERS (a callable handed in by the caller) in a container created in
+    `fnode` and answers later calls from that container: the callable is then consulted once per
+    key, not once per occurrence -- wrong for callables that count, collect or depend on state."""
+    params = {a.arg for a in fnode.args.args + fnode.args.kwonlyargs}
+    own = [n for n in iter_own(fnode)]
+    containers = set()
+    for st in own:
+        if isinstance(st, ast.Assign) and len(st.targets) == 1 and isinstance(st.targets[0], ast.Name):
+            v = st.value
+            if isinstance(v, ast.Dict) or (isinstance(v, ast.Call) and isinstance(v.func, ast.Name) and
+                                           v.func.id in ('dict', 'OrderedDict', 'defaultdict')):
+                containers.add(st.targets[0].id)
+    if not containers:
+        return
+    for g in own:
+        if not isinstance(g, (ast.FunctionDef, ast.Lambda)) or g is fnode:
+            continue
+        for st in ast.walk(g):
+            if isinstance(st, ast.Assign):
+                for t in st.targets:
+                    if isinstance(t, ast.Subscript) and isinstance(t.value, ast.Name) and t.value.id in containers:
+                        for c in ast.walk(st.value):
+                            if isinstance(c, ast.Call) and isinstance(c.func, ast.Name) and c.func.id in params:
+                                yield g, st, c
+            elif isinstance(st, ast.Call) and isinstance(st.func, ast.Attribute) and st.func.attr == 'setdefault' and \
+                    isinstance(st.func.value, ast.Name) and st.func.value.id in containers:
+                for c in ast.walk(st):
+                    if c is not st and isinstance(c, ast.Call) and isinstance(c.func, ast.Name) and c.func.id in params:
+                        yield g, st, c
+
+
+# ---------------------------------------------------------------------------
+# G25: a test computed once before a loop from a variable the loop moves
+def stale_hoisted_tests(fnode):
+    """Yield (assign, var, loop, use) where a boolean `X = <test mentioning V>` is computed once,
+    outside every loop, V is re-assigned inside a later loop, and X is read as (part of) a branch
+    condition inside that loop without being recomputed there: the test still speaks about the V of
+    before the loop."""
+    def is_test(v):
+        if isinstance(v, (ast.BoolOp, ast.Compare)):
+            return True
+        if isinstance(v, ast.UnaryOp) and isinstance(v.op, ast.Not):
+            return True
+        if isinstance(v, ast.Call) and isinstance(v.func, ast.Attribute) and (
+                v.func.attr.startswith('is') or v.func.attr in ('startswith', 'endswith')):
+            return True
+        return False
+    own = list(iter_own(fnode))
+    stores = {}
+    for n in own:
+        if isinstance(n, ast.Name) and isinstance(n.ctx, ast.Store):
+            stores.setdefault(n.id, []).append(n)
+    loops = [n for n in own if isinstance(n, (ast.For, ast.While))]
+    def in_loop(n):
+        return any(isinstance(p, (ast.For, ast.While)) for p in parents(n) if p is not fnode)
+    for st in own:
+        if not (isinstance(st, ast.Assign) and len(st.targets) == 1 and isinstance(st.targets[0], ast.Name)
+                and is_test(st.value)):
+            continue
+        x = st.targets[0].id
+        if len(stores.get(x, ())) != 1 or in_loop(st):
+            continue
+        vs = {n.id for n in ast.walk(st.value) if isinstance(n, ast.Name) and isinstance(n.ctx, ast.Load)}
+        for lp in loops:
+            if lp.lineno <= st.lineno:
+                continue
+            inner = [n for b in (lp.body, lp.orelse) for s_ in b for n in ast.walk(s_)]
+            moved = sorted({n.id for n in inner if isinstance(n, ast.Name) and isinstance(n.ctx, ast.Store) and n.id in vs})
+            if not moved:
+                continue
+            for n in inner:
+                if isinstance(n, (ast.If, ast.While, ast.IfExp)) and any(
+                        isinstance(y, ast.Name) and y.id == x and isinstance(y.ctx, ast.Load) for y in ast.walk(n.test)):
+                    yield st, moved[0], lp, n
+                    break
